@@ -11,8 +11,8 @@ theorem rel_subCall (kd : Kind) (f : Bool) (hR : R k s g j) (i1 : Inv1 s) (i2 : 
     R k s' (gStep s g (.subCall kd f)) (judgeFrom j (obsX s g (.subCall kd f))) := by
   simp only [obsX, obsOf, obsExtra, gStep, judgeFrom, List.append_nil, List.foldl,
     jstep_subCall hR.base.err hR.base.nfree]
-  simp only [okL, Bool.and_eq_true, Bool.or_eq_true, Bool.not_eq_true', List.isEmpty_iff] at hc
-  obtain ⟨⟨hc1, hc2⟩, hc3⟩ := hc
+  simp only [okL, Bool.and_eq_true, List.isEmpty_iff] at hc
+  obtain ⟨hc1, hc2⟩ := hc
   step_cases hs
   rename_i hi
   obtain ⟨a1,a2,a3,a4,a5,a6,a7,a8,a9,a10⟩ :=
@@ -28,15 +28,7 @@ theorem rel_subCall (kd : Kind) (f : Bool) (hR : R k s g j) (i1 : Inv1 s) (i2 : 
     simp only [List.head?_cons, Option.some.injEq] at ho
     subst ho
     constructor <;> (try dsimp only [newOp]) <;>
-      (first | grind [b2n, unrep, pend, Refusal, DLrel, timeoutDue, isDirect] | skip)
-    intro _
-    refine ⟨b7, b9, fun hu => ?_⟩
-    rcases hc3 with h | h
-    · rw [h] at b8
-      cases hx : j.absExp with
-      | none => rfl
-      | some e => rw [hx] at b8; cases b8
-    · rw [hu] at h; cases h
+      grind [b2n, unrep, pend, Refusal, DLrel, timeoutDue, isDirect]
   · intro x hx
     simp only [List.tail_cons] at hx
     cases hj : j.ops with
@@ -82,7 +74,7 @@ theorem rel_subRet (b : Bool) (v : Nat) (hR : R k s g j) (i1 : Inv1 s) (i2 : Inv
         rw [updNewest_head, ho] at ho'
         simp only [Option.map_some, Option.some.injEq] at ho'
         subst ho'
-        rcases hh o ho with ⟨r1,r2,r3,r4,r5,r6,r7,r8,r9,r10,r11,r12,r13,r14,r15,r16,r17,r18⟩
+        rcases hh o ho with ⟨r1,r2,r3,r4,r5,r6,r7,r8,r9,r10,r11,r12,r13,r14,r15,r16,r17,r18,r19,r20,r21,r22⟩
         constructor <;> (try dsimp only [fRet]) <;>
           (first | grind [b2n, unrep, pend, Refusal, DLrel, timeoutDue, isDirect] | skip)
       · intro x hx; rw [updNewest_tail] at hx; exact ht x hx
@@ -97,7 +89,7 @@ theorem rel_subRet (b : Bool) (v : Nat) (hR : R k s g j) (i1 : Inv1 s) (i2 : Inv
         rw [updNewest_head, ho] at ho'
         simp only [Option.map_some, Option.some.injEq] at ho'
         subst ho'
-        rcases hh o ho with ⟨r1,r2,r3,r4,r5,r6,r7,r8,r9,r10,r11,r12,r13,r14,r15,r16,r17,r18⟩
+        rcases hh o ho with ⟨r1,r2,r3,r4,r5,r6,r7,r8,r9,r10,r11,r12,r13,r14,r15,r16,r17,r18,r19,r20,r21,r22⟩
         constructor <;> (try dsimp only [fRet]) <;>
           (first | grind [b2n, unrep, pend, Refusal, DLrel, timeoutDue, isDirect] | skip)
       · intro x hx; rw [updNewest_tail] at hx; exact ht x hx
@@ -115,7 +107,7 @@ theorem rel_subRet (b : Bool) (v : Nat) (hR : R k s g j) (i1 : Inv1 s) (i2 : Inv
       rw [updNewest_head, ho] at ho'
       simp only [Option.map_some, Option.some.injEq] at ho'
       subst ho'
-      rcases hh o ho with ⟨r1,r2,r3,r4,r5,r6,r7,r8,r9,r10,r11,r12,r13,r14,r15,r16,r17,r18⟩
+      rcases hh o ho with ⟨r1,r2,r3,r4,r5,r6,r7,r8,r9,r10,r11,r12,r13,r14,r15,r16,r17,r18,r19,r20,r21,r22⟩
       constructor <;> (try dsimp only [fRet]) <;>
         (first | grind [b2n, unrep, pend, Refusal, DLrel, timeoutDue, isDirect] | skip)
     · intro x hx; rw [updNewest_tail] at hx; exact ht x hx
